@@ -54,6 +54,15 @@ theorem init_shape_generated :
 theorem fini_shape_generated :
     raceShapeRaw .ready .gone (Foot.generated.events "ovni_proc_fini") = true := by decide
 
+--
+-- OPEN: the semantic counterpart — "in every reachable state of N racing
+-- `ovni_proc_init` calls interleaved with arbitrary thread-level programs,
+-- `rproc.st = READY` implies that every member of `rproc` already holds the
+-- winner's value" — is not proved; `init_once` gives it for the final state
+-- (READY with exactly the winner's arguments) and `thread_isolation` assumes
+-- programs that start after READY was published.  This table fact is what
+-- such a proof would rest on, and it is re-decided against the source on
+-- every run (moving the store of READY before `create_proc_dir` breaks it).
 /-- In `ovni_proc_init` every write of an `rproc` member comes before READY is
     published: the last shared event is the store of READY (so `rproc` is
     read-only once a thread can see READY). -/
